@@ -635,7 +635,7 @@ def names_spec(rep, rule, func, site):
         elif ret in ('[]', 'list()'):
             ap = [e for e in ps.events if e.kind == 'call' and
                   isinstance(e.r.func, ast.Attribute) and e.r.func.attr == 'append']
-            looped = any(c == 'ITER(%s)' % want_call for c, t, p in ps.order)
+            looped = any(t and c == 'ITER(%s)' % want_call for c, t, p in ps.order)
             if looped and not (len(ap) == 1 and nt(ap[0].r.args[0]) ==
                                'EACH(%s)[0]' % want_call):
                 problems.append('collects `%s`' % [nt(a.r) for a in ap])
@@ -713,7 +713,7 @@ def subscribers_spec(rep, rule, func, site):
             continue
         each = 'EACH(%s)' % sub
         calls = [e for e in ps.events if e.kind == 'call' and nt(e.r.func) == each]
-        looped = any(c == 'ITER(%s)' % sub for c, t, p in ps.order)
+        looped = any(t and c == 'ITER(%s)' % sub for c, t, p in ps.order)
         if looped:
             if len(calls) != 1 or nt(calls[0].r) != '%s(*objects)' % each:
                 problems.append('subscription called as %s' % [nt(c.r)[:60] for c in calls])
